@@ -18,11 +18,14 @@ type Msg struct {
 	To      []string `json:"to"`
 	Cc      []string `json:"cc,omitempty"`
 	Subject string   `json:"subject"`
-	Body    string   `json:"body"`
-	Files   []FileD  `json:"files,omitempty"`
-	DateMin int      `json:"date_min"` // minutes after 2015-01-01 00:00 UTC
-	Type    string   `json:"type,omitempty"`
-	P2POnly bool     `json:"p2p_only,omitempty"`
+	// RawSubject: store Subject in the header as it is (the way a CMS delivers
+	// UTF-8 or Latin-1 subjects) instead of word-encoding it with SetSubject.
+	RawSubject bool    `json:"raw_subject,omitempty"`
+	Body       string  `json:"body"`
+	Files      []FileD `json:"files,omitempty"`
+	DateMin    int     `json:"date_min"` // minutes after 2015-01-01 00:00 UTC
+	Type       string  `json:"type,omitempty"`
+	P2POnly    bool    `json:"p2p_only,omitempty"`
 }
 
 type FileD struct {
@@ -46,7 +49,11 @@ func (d Msg) Build() (m *fbb.Message, raw []byte, ok bool) {
 	m.SetDate(epoch.Add(time.Duration(d.DateMin) * time.Minute))
 	m.AddTo(d.To...)
 	m.AddCc(d.Cc...)
-	m.SetSubject(d.Subject)
+	if d.RawSubject {
+		m.Header.Set(fbb.HEADER_SUBJECT, d.Subject)
+	} else {
+		m.SetSubject(d.Subject)
+	}
 	if err := m.SetBody(d.Body); err != nil {
 		return nil, nil, false
 	}
@@ -217,6 +224,20 @@ func GenMsg(r *core.Rand, used map[string]bool, from string, to string, size int
 		From:    from,
 		DateMin: r.Intn(6 * 365 * 24 * 60),
 		Subject: genSubject(r),
+	}
+	if r.Chance(0.06) {
+		// a raw UTF-8 subject: k two-byte characters followed by ASCII, at most
+		// 128 header bytes; its re-encoded proposal title is cut near the
+		// one-byte header-length limit, inside the ASCII run
+		var sb strings.Builder
+		k := r.Range(18, 44)
+		for i := 0; i < k; i++ {
+			sb.WriteRune(rune(r.Range(0xc0, 0xff)))
+		}
+		for sb.Len() < r.Range(2*k, 127) {
+			sb.WriteByte("abcdefghij klmnop"[r.Intn(17)])
+		}
+		m.Subject, m.RawSubject = strings.TrimSpace(sb.String()), true
 	}
 	if to != "" && r.Chance(0.7) {
 		m.To = []string{to}
